@@ -225,6 +225,19 @@ func (t *verifTracer) ev(kind string, a, b action, extra int, locked bool) {
 		}
 	}
 	fmt.Fprintf(&t.buf, "ev %d %s %d %d %d\n", na.lvl, kind, na.id, nb.id, extra)
+	if t.buf.Len() > 1<<16 {
+		t.flush()
+	}
+}
+
+// flush appends the buffered lines to the trace file, so that a run that panics or hangs leaves the
+// prefix of its trace behind.
+func (t *verifTracer) flush() {
+	if f, err := os.OpenFile(t.path, os.O_APPEND|os.O_CREATE|os.O_WRONLY, 0o666); err == nil {
+		f.WriteString(t.buf.String())
+		f.Close()
+	}
+	t.buf.Reset()
 }
 
 func verifBool(b bool) int {
@@ -338,10 +351,7 @@ func verifExit(root action) {
 	fmt.Fprintf(&t.buf, "ev %d exit %d -1 0\n", n.lvl, n.id)
 	if n.lvl == -1 {
 		t.buf.WriteString("endrun\n")
-		if f, err := os.OpenFile(t.path, os.O_APPEND|os.O_CREATE|os.O_WRONLY, 0o666); err == nil {
-			f.WriteString(t.buf.String())
-			f.Close()
-		}
+		t.flush()
 		t.reset()
 	}
 }
